@@ -4,10 +4,10 @@ import impl as I
 
 SCHEMES = [b"http", b"http", b"http", b"https", b"https", b"ftp"]
 TLDS = [b"com", b"com", b"org", b"fr"]
-DOMS = [b"a", b"b", b"twitter", b"site"]
+DOMS = [b"a", b"b", b"twitter", b"site", b"caf\xc3\xa9"]          # one non-ASCII (UTF-8) label: text arguments are encoded by the API
 SUBS = [b"www", b"www", b"blog", b"m"]
 SPECIAL_HOSTS = [b"localhost", b"1.2.3.4", b"[::1]", b"LocalHost", b"192.168.0.1"]
-PATHS = [b"a", b"b", b"ab", b"c", b"a", b"x"]
+PATHS = [b"a", b"b", b"ab", b"c", b"a", b"x", b"men\xc3\xbc"]
 CRIT_LENGTHS = [73, 74, 75, 76, 147, 148, 149, 150, 221, 222, 223, 300]
 
 
